@@ -7,7 +7,16 @@ import Mathlib.Tactic.FieldSimp
 /-!
 # C16 — the Newton step is the least-squares solution; scalings and Jacobians are consistent
 Linear algebra over a commutative ring / ordered field (Mathlib's `Matrix`); numpy's SVD satisfying the
-orthogonality hypotheses and IEEE rounding are parameters, exercised numerically by the check.
+orthogonality hypotheses and IEEE rounding are parameters: the `lin` driver suite runs the Float transcription
+`Lstsq.lstsq` on numpy's factors and compares with `SVD.lstsq` bit for bit; that `Lstsq.lstsq` and the Mathlib-level
+`lstsqSol` are the same formula, and that numpy's factors are orthonormal, is by reading / assumed (the oracle compares with
+numpy's `pinv` of the truncated matrix instead).
+
+**What is stand-alone algebra here, not connected to the optimizer skeleton:** the first-step theorems (`C16_first_step_lands*`:
+exact Jacobian, full step, no limits; `hs` is needed for the UNtruncated singular values — "condition number ≤ 100 and a
+small rcond cut nothing" is not stated), Broyden updates (no theorem), `solve()` succeeding (no theorem; oracle only), the
+view-Jacobian clause (`C16_affine_fd_exact`, `C16_view_chain_factor` are one-dimensional facts; there is no model of a view or
+of `return_scalar`; the oracle compares each view's Jacobian with finite differences of that view).
 -/
 namespace Properties.C16
 open Matrix
